@@ -235,6 +235,41 @@ def rename_slides(data, mapping):
     return out.getvalue()
 
 
+def with_foreign_parts(data, png):
+    """The deck plus what PowerPoint-authored files have and python-pptx never writes: parts of a class the library
+    does not know (loaded as the generic Part) that have relationships of their own -- the theme with a picture fill
+    (theme1.xml -> ../media/image77.png) and a custom XML item with its properties part (presentation ->
+    ../customXml/item1.xml -> itemProps1.xml).  Both targets are reachable through those parts only."""
+    zi = zipfile.ZipFile(io.BytesIO(data))
+    out = io.BytesIO()
+    zo = zipfile.ZipFile(out, "w", zipfile.ZIP_DEFLATED)
+    RELS = "http://schemas.openxmlformats.org/package/2006/relationships"
+    RT = "http://schemas.openxmlformats.org/officeDocument/2006/relationships/"
+    for n in zi.namelist():
+        b = zi.read(n)
+        if n == "[Content_Types].xml":
+            root = etree.fromstring(b)
+            ns = root.nsmap[None]
+            if not any(e.get("Extension", "").lower() == "png" for e in root):
+                etree.SubElement(root, "{%s}Default" % ns, Extension="png", ContentType="image/png")
+            etree.SubElement(root, "{%s}Override" % ns, PartName="/customXml/itemProps1.xml",
+                             ContentType="application/vnd.openxmlformats-officedocument.customXmlProperties+xml")
+            b = etree.tostring(root, xml_declaration=True, encoding="UTF-8", standalone=True)
+        if n == "ppt/_rels/presentation.xml.rels":
+            root = etree.fromstring(b)
+            etree.SubElement(root, "{%s}Relationship" % RELS, Id="rId907", Type=RT + "customXml", Target="../customXml/item1.xml")
+            b = etree.tostring(root, xml_declaration=True, encoding="UTF-8", standalone=True)
+        zo.writestr(n, b)
+    rels = lambda body: ('<?xml version="1.0" encoding="UTF-8" standalone="yes"?>\n<Relationships xmlns="%s">%s</Relationships>' % (RELS, body)).encode()  # noqa: E731
+    zo.writestr("ppt/theme/_rels/theme1.xml.rels", rels('<Relationship Id="rId1" Type="%simage" Target="../media/image77.png"/>' % RT))
+    zo.writestr("ppt/media/image77.png", png)
+    zo.writestr("customXml/item1.xml", b'<?xml version="1.0" encoding="UTF-8" standalone="yes"?>\n<root xmlns="urn:x-verif"><v>1</v></root>')
+    zo.writestr("customXml/itemProps1.xml", b'<?xml version="1.0" encoding="UTF-8" standalone="yes"?>\n<ds:datastoreItem xmlns:ds="http://schemas.openxmlformats.org/officeDocument/2006/customXml" ds:itemID="{00000000-0000-0000-0000-000000000001}"/>')
+    zo.writestr("customXml/_rels/item1.xml.rels", rels('<Relationship Id="rId1" Type="%scustomXmlProps" Target="itemProps1.xml"/>' % RT))
+    zo.close()
+    return out.getvalue()
+
+
 _DECKS = None
 
 
@@ -279,6 +314,7 @@ def decks():
     out["gaps"] = rename_slides(rich, {1: 2, 2: 5, 3: 9, 4: 12})
     out["gaps_perm"] = rename_slides(rich, {1: 7, 2: 3, 3: 11, 4: 1})
     out["shift"] = rename_slides(rich, {1: 2, 2: 3, 3: 4, 4: 5})
+    out["foreign"] = with_foreign_parts(rich, F.images[-1][0])
     _DECKS = out
     return out
 
@@ -1319,7 +1355,7 @@ def run(ck, tier, rng):
         # without the model the oracle still runs
         global model_views
         model_views = lambda deck_name, ops_list, mode="n": [None] * len(ops_list)  # noqa
-    djobs = [(d, name, ops) for d in ("default", "rich", "swap", "gaps") for name, ops in directed_histories()]
+    djobs = [(d, name, ops) for d in ("default", "rich", "swap", "gaps", "foreign") for name, ops in directed_histories()]
     with multiprocessing.Pool(procs) as pool:
         results = pool.map(directed_worker, djobs, chunksize=2)
         results += pool.map(worker, jobs, chunksize=max(1, nh // (procs * 8)))
